@@ -373,6 +373,14 @@ func ruleC10Errors(p *Program, r *Run) {
 				return true
 			}
 			kind, how := sc.classify(sp)
+			// the span of another parseError is a token span by this very rule (induction over the construction sites)
+			if sel, ok := ast.Unparen(p.Resolve(sp)).(*ast.SelectorExpr); ok && kind != "token" {
+				if f := selField(info, sel); f != nil && f.Name() == "span" {
+					if t := info.TypeOf(sel.X); t != nil && (TypeStr(t) == "*parser.parseError" || TypeStr(t) == "parser.parseError") {
+						kind, how = "token", "span copied from another parseError (token span by this rule)"
+					}
+				}
+			}
 			r.Check(kind == "token", "C10/errors", key, p.Pos(cl.Pos()), how, fmt.Sprintf("a parse error is positioned with %s; (*parseError).Error slices source[:span.Start] without a validity check, so only token spans (or end of input) are safe", how))
 			return true
 		})
